@@ -26,26 +26,26 @@ Proof.
   intros [H1 [H2 [H3 H4]]]. unfold cluster_step. destruct (c_swapped s) eqn:Sw; [repeat split; assumption|].
   destruct e; try (repeat split; assumption).
   - (* commit *) repeat split; cbn.
-    + constructor. exact H1.
+    + apply sub_skip. exact H1.
     + intros _. exact H1.
     + discriminate.
     + exact H4.
   - (* replicate ok *) destruct (c_dirty s) eqn:D; [|repeat split; try assumption; rewrite D; assumption].
     destruct (c_log s) as [|r l] eqn:L; [repeat split; try assumption; rewrite ?D, ?L; assumption|].
     specialize (H2 eq_refl). cbn in H2. repeat split; cbn.
-    + rewrite ?L. constructor. exact H2.
+    + rewrite ?L. apply sub_take. exact H2.
     + discriminate.
-    + intros _. right. exists r, l, (c_applied s). split; [exact L|reflexivity].
+    + intros _. right. exists r, l, (c_applied s). split; [rewrite ?L; reflexivity|reflexivity].
     + intros x Hx. right. apply H4. exact Hx.
   - (* ack *) destruct (c_dirty s) eqn:D; [repeat split; try assumption; rewrite D; assumption|].
     destruct (c_applied s) as [|r a] eqn:A; [repeat split; try assumption; rewrite ?D, ?A; assumption|].
-    repeat split; cbn; rewrite ?A; try assumption.
-    + rewrite A in H1. exact H1.
+    repeat split; cbn.
+    + exact H1.
     + discriminate.
-    + intros _. specialize (H3 eq_refl). rewrite A in H3. exact H3.
-    + intros x [Hx|Hx]; [subst; left; reflexivity | rewrite <- A; apply H4; exact Hx].
+    + intros _. exact (H3 eq_refl).
+    + intros x [Hx|Hx]; [left; exact Hx | apply H4; exact Hx].
   - (* transition *) destruct (c_dirty s) eqn:D; [repeat split; try assumption; rewrite D; assumption|].
-    repeat split; cbn; try assumption; try discriminate. intros _. exact (H3 eq_refl).
+    repeat split; cbn; try assumption; try discriminate; try (intros _; exact (H3 eq_refl)).
 Qed.
 
 Lemma cinv_run_from es s : cinv s -> cinv (fold_left cluster_step es s).
@@ -67,19 +67,20 @@ Theorem transition_no_loss :
     c_swapped s = true ->
     incl (c_acked s) (primary_log s) /\ hd_error (primary_log s) = hd_error (c_log s).
 Proof.
-  intros es s Sw. destruct (cinv_run_from es init_cluster cinv_init) as [H1 [H2 [H3 H4]]]. fold s in H1, H2, H3, H4.
+  intros es s Sw. subst s. unfold cluster_run in *.
+  destruct (cinv_run_from es init_cluster cinv_init) as [H1 [H2 [H3 H4]]].
   unfold primary_log. rewrite Sw. split; [exact H4|].
   (* a swapped state is never dirty *)
-  assert (D : c_dirty s = false).
-  { subst s. unfold cluster_run. clear H1 H2 H3 H4. revert Sw.
+  assert (D : c_dirty (fold_left cluster_step es init_cluster) = false).
+  { clear H1 H2 H3 H4. revert Sw.
     assert (G : forall es st, (c_swapped st = true -> c_dirty st = false) ->
                 c_swapped (fold_left cluster_step es st) = true -> c_dirty (fold_left cluster_step es st) = false).
     { induction es0 as [|e es0 IH]; intros st Hst; [exact Hst|]. cbn. apply IH.
-      unfold cluster_step. destruct (c_swapped st) eqn:S0; [exact Hst|].
-      destruct e; cbn; try (rewrite S0; discriminate).
-      - destruct (c_dirty st); [|rewrite S0; discriminate]. destruct (c_log st); cbn; [rewrite S0|]; discriminate.
-      - destruct (c_dirty st); [rewrite S0; discriminate|]. destruct (c_applied st); cbn; [rewrite S0|]; discriminate.
-      - destruct (c_dirty st) eqn:D0; [rewrite S0; discriminate|]. reflexivity. }
+      intros Hs'. unfold cluster_step in *. destruct (c_swapped st) eqn:S0; [apply Hst; reflexivity|].
+      destruct e; cbn in Hs' |- *; try congruence.
+      - destruct (c_dirty st) eqn:D0; [|congruence]. destruct (c_log st); cbn in *; congruence.
+      - destruct (c_dirty st) eqn:D0; [congruence|]. destruct (c_applied st); cbn in *; congruence.
+      - destruct (c_dirty st) eqn:D0; cbn in *; [congruence|reflexivity]. }
     apply G. discriminate. }
   destruct (H3 D) as [[E1 E2]|[r [l [a [E1 E2]]]]]; rewrite E1, E2; reflexivity.
 Qed.
@@ -89,12 +90,14 @@ Theorem caught_up_converges :
   forall es, let s := cluster_step (cluster_run es) CReplicateOk in
     c_swapped s = false -> hd_error (c_applied s) = hd_error (c_log s).
 Proof.
-  intros es s Sw. subst s.
+  intros es s Sw. subst s. unfold cluster_run in *.
   destruct (cinv_run_from es init_cluster cinv_init) as [H1 [H2 [H3 H4]]].
-  set (s0 := cluster_run es) in *. unfold cluster_step in *. destruct (c_swapped s0) eqn:S0; [cbn in Sw; congruence|].
+  set (s0 := fold_left cluster_step es init_cluster) in *. unfold cluster_step in Sw |- *.
+  destruct (c_swapped s0) eqn:S0; [congruence|].
   destruct (c_dirty s0) eqn:D.
-  - destruct (c_log s0) as [|r l] eqn:L; cbn; [|rewrite ?L; reflexivity].
-    rewrite L. specialize (H2 eq_refl). rewrite L in H2. cbn in H2. inversion H2. reflexivity.
+  - destruct (c_log s0) as [|r l] eqn:L.
+    + specialize (H2 eq_refl). cbn in H2. destruct (c_applied s0); [rewrite ?L; reflexivity | inversion H2].
+    + cbn. rewrite ?L. reflexivity.
   - destruct (H3 eq_refl) as [[E1 E2]|[r [l [a [E1 E2]]]]]; rewrite E1, E2; reflexivity.
 Qed.
 
